@@ -74,8 +74,10 @@ def configs(tier):
     for mode in ('ret', 'raise', 'cancel', 'online'):
         for P in (1, 2):
             if mode != 'online':
-                out.append((mode, True, P, 3, 'S', 2, 2, 2))
-            out.append((mode, True, P, 3, 'C', 2 if P == 2 else 1, -1, 2))
+                # return_exceptions at P=1 is fully serialised: two-valued outcomes keep thorough within budget
+                out.append((mode, True, P, 3, 'S', 1 if (mode == 'ret' and P == 1) else 2, 2, 2))
+            if not (mode == 'ret' and P == 1):      # return_exceptions promises nothing on caller cancellation
+                out.append((mode, True, P, 3, 'C', 2 if P == 2 else 1, -1, 2))
     for mode in ('ret', 'raise', 'cancel'):
         for P in (1, 2):
             out.append((mode, False, P, 3, 'S', 2, 1, 2))
@@ -104,9 +106,16 @@ def run(R):
     pct = 400 if quick else 1300
     max_rounds = 10
     cfgs = configs(R.tier)
-    R.bounds = {'workers': '3' if quick else '3 (all configurations), 4 (permit-holding caller, P=2, raise / cancel_on_error '
-                                              '/ online, no outer cancellation, two-valued outcomes)',
-                'parallelism_P': '1..2', 'resolutions': 'each worker future resolved exactly once, any order',
+    R.bounds = {'workers': '3' if quick else '3 (all configurations), 4 (permit-holding caller, P=2, raise / cancel_on_error, '
+                                              'no outer cancellation, two-valued outcomes)',
+                'parallelism_P': '1..2 (online programs in thorough: 1..3)',
+                'online_program': ('call(w0) then 4 symbolic steps from {call next, wait(first unfinished), leave, raise in '
+                                   'the block, resolve w_i with value/exception, end}; one symbolic drain mode (none / '
+                                   'quiescent) for the schedule; P=2' if quick else
+                                   'call(w0) then 4 symbolic steps incl. resolve with own CancelledError and Task.cancel() on '
+                                   'a returned task, drain mode none / quiescent / one tick, P=1..3; and 5 symbolic steps '
+                                   'without Task.cancel(), drain mode none / quiescent, P=2') +
+                                  '; afterwards the body leaves (if it has not) and every remaining future gets its value', 'resolutions': 'each worker future resolved exactly once, any order',
                 'outcomes': 'value / exception / worker ends with its own CancelledError (family S; family C: value / '
                             'exception' + ('' if quick else ', three-valued for permit-holding P=2') + ')',
                 'drain_choices': 'family S: none / until quiescent' + ('' if quick else ' / exactly one tick') +
@@ -114,7 +123,8 @@ def run(R):
                                  'the outer cancel',
                 'outer_cancel_point': 'before resolution 0..N-1, after the last one, or never (family S)',
                 'worker_unwind_turns': '0..1' if quick else '0..2',
-                'modes': 'return_exceptions, raise, raise+cancel_on_error, OnlineBoundedGather2(call x N, wait first, exit)',
+                'modes': 'return_exceptions, raise, raise+cancel_on_error, OnlineBoundedGather2 (fixed script call x N, wait first, '
+                         'exit in the caller-cancel family; symbolic program otherwise)',
                 'caller': 'holds one permit and calls bounded_gather2_* / OnlineBoundedGather2; or top-level via '
                           'bounded_gather(parallelism=P)',
                 'configurations': [list(c) for c in cfgs]}
@@ -127,7 +137,11 @@ def run(R):
         'bounded_gather2_* and OnlineBoundedGather2 are only called by a coroutine that holds one permit of the semaphore '
         '(their WithoutSemaphore releases one); a direct call from a coroutine that holds none (e.g. '
         'hailtop/fs/router_fs.py _async_ls) admits P+1 workers and is outside the claim',
-        'OnlineBoundedGather2 script: call() for every worker, wait() for the first task only, then leave the context',
+        'OnlineBoundedGather2 in the caller-cancel family: fixed script call() for every worker, wait() for the first '
+        'task only, then leave the context; without outer cancellation: symbolic programs in which the body holds one '
+        'permit, receives its steps through a gate future (so it can be blocked in wait/exit while the director goes '
+        'on), worker 0 is always submitted first, and after the last step the body leaves normally and the remaining '
+        'futures are resolved with their values one by one',
         'clean-up promises used by the oracle when the caller is cancelled: cancel_on_error=True (its finally block runs '
         'for every exception) and OnlineBoundedGather2 (__aexit__ shuts the pool down for any exception) must leave no '
         'task pending and no uncancelled work; return_exceptions and plain raise mode promise nothing there (children are '
